@@ -49,6 +49,7 @@ EW1 = {
     "tanh": (lambda a: np.tanh(a), lambda g, a, o: g * (1 - o * o)),
     "sqrt": (lambda a: np.sqrt(a), lambda g, a, o: g / (2 * o)),
     "reciprocal": (lambda a: 1 / a, lambda g, a, o: -g * o * o),
+    "sinc": (lambda a: np.sinc(a), lambda g, a, o: g * (np.cos(np.pi * a) * np.pi * a - np.sin(np.pi * a)) / (np.pi * a * a)),
     # the rest of MyGrad's elementwise vocabulary (derivatives written from the calculus, not from
     # MyGrad's code; the finite-difference self-check of the tape covers them like every other rule)
     "arccos": (lambda a: np.arccos(a), lambda g, a, o: -g / np.sqrt(1 - a * a)),
@@ -321,6 +322,15 @@ class Tape:
             if ax is None:
                 return [np.flip(np.cumsum(np.flip(g.ravel()))).reshape(v[0].shape)]
             return [np.flip(np.cumsum(np.flip(g, axis=ax), axis=ax), axis=ax)]
+        if kind == "cumprod":
+            # (no zeros in the operand - the generator keeps away from them): d out_j / d x_i = out_j / x_i for j >= i
+            ax = p["axis"]
+            o = np.cumprod(v[0], axis=ax)
+            if ax is None:
+                r = np.flip(np.cumsum(np.flip((g.ravel() * o.ravel())))).reshape(v[0].shape)
+            else:
+                r = np.flip(np.cumsum(np.flip(g * o, axis=ax), axis=ax), axis=ax)
+            return [r / v[0]]
         if kind == "matmul":
             a, b = v
             if a.ndim == 1 and b.ndim == 1:
